@@ -52,11 +52,12 @@ type Entry struct {
 }
 
 type Case struct {
-	Entries []Entry `json:"entries"`
-	Dest    string  `json:"dest"`  // default, mem, minimal, os
-	Order   []int   `json:"order"` // release order of gated destination calls
-	Escape  string  `json:"escape,omitempty"`
-	EscapeAt int    `json:"escape_at,omitempty"`
+	Entries  []Entry `json:"entries"`
+	Dest     string  `json:"dest"`  // default, mem, minimal, os
+	Order    []int   `json:"order"` // release order of gated destination calls
+	HoldAll  bool    `json:"hold_all,omitempty"`
+	Escape   string  `json:"escape,omitempty"`
+	EscapeAt int     `json:"escape_at,omitempty"`
 }
 
 func content(p string, size int) []byte {
@@ -108,6 +109,10 @@ type gate struct {
 	stop    chan struct{}
 	free    bool // once the drawn order is used up, calls pass straight through
 	calls   int
+	// holdAll: nothing is released until no further call arrives for a while (every background writer that can start has
+	// started and the reader is waiting for a buffer); then everything is released at once. Exercises the buffer pools' bound.
+	holdAll bool
+	maxHeld int
 }
 
 func newGate(order []int) *gate {
@@ -119,10 +124,13 @@ func newGate(order []int) *gate {
 	return g
 }
 
-func (g *gate) enter() {
+func (g *gate) enter() { g.enterKind("") }
+
+func (g *gate) enterKind(kind string) {
 	g.mu.Lock()
 	g.calls++
-	if g.free {
+	if g.free || (g.holdAll && kind != "openfile") {
+		// hold-all mode parks only the background writers (their OpenFile); the reader's own foreground calls pass
 		g.mu.Unlock()
 		return
 	}
@@ -165,6 +173,25 @@ func (g *gate) schedule() {
 			}
 		}
 		g.mu.Lock()
+		if len(g.waiting) > g.maxHeld {
+			g.maxHeld = len(g.waiting)
+		}
+		if g.holdAll {
+			if len(g.waiting) > 0 {
+				n := len(g.waiting)
+				g.mu.Unlock()
+				time.Sleep(3 * time.Millisecond)
+				g.mu.Lock()
+				if len(g.waiting) == n { // quiescent: release everybody, then hold the next wave
+					for _, ch := range g.waiting {
+						close(ch)
+					}
+					g.waiting = nil
+				}
+			}
+			g.mu.Unlock()
+			continue
+		}
 		if len(g.waiting) > 0 {
 			idx := 0
 			if g.used < len(g.order) {
@@ -199,7 +226,7 @@ type gatedMin struct {
 
 func (d gatedMin) Open(name string) (hackpadfs.File, error) { return d.inner.Open(name) }
 func (d gatedMin) OpenFile(name string, flag int, perm hackpadfs.FileMode) (hackpadfs.File, error) {
-	d.g.enter()
+	d.g.enterKind("openfile")
 	f, err := d.inner.OpenFile(name, flag, perm)
 	if err != nil {
 		return nil, err
@@ -336,7 +363,7 @@ func short(n ops.Node) string {
 	return n.String()
 }
 
-type outcome struct{ gatedCalls int }
+type outcome struct{ gatedCalls, maxHeld int }
 
 func check(c Case) (string, string, outcome) {
 	var sig, msg string
@@ -355,6 +382,11 @@ func checkInner(c Case) (string, string, outcome) {
 	var out outcome
 	archive := buildArchive(c)
 	g := newGate(c.Order)
+	if c.HoldAll {
+		g.mu.Lock()
+		g.holdAll, g.free = true, false
+		g.mu.Unlock()
+	}
 	defer close(g.stop)
 	var opts htar.ReaderFSOptions
 	var inner hackpadfs.FS
@@ -389,6 +421,7 @@ func checkInner(c Case) (string, string, outcome) {
 	}
 	g.mu.Lock()
 	out.gatedCalls = g.calls
+	out.maxHeld = g.maxHeld
 	g.mu.Unlock()
 	uerr := tfs.UnarchiveErr()
 	if c.Escape != "" {
@@ -609,11 +642,29 @@ func TestTree(t *testing.T) {
 func TestManyEntries(t *testing.T) {
 	vf.Check(t, "many", func(rt *rapid.T, rec *vf.Rec) {
 		c := genCase(rt, true)
+		if c.Dest != "default" && rapid.Bool().Draw(rt, "holdall") {
+			c.HoldAll = true
+			c.Order = nil
+			for i := range c.Entries {
+				// only small entries: a big one is written by the reader itself, which would then be the one parked at the gate
+				if c.Entries[i].Size >= 150*1024-1 {
+					c.Entries[i].Size = 100 + i
+				}
+			}
+			rec.Class("hold-all-writers")
+		}
 		rec.Step(c)
 		classify(c, rec)
 		rec.NonTrivial()
 		sig, msg, out := check(c)
 		rec.Count("gated-destination-calls", out.gatedCalls)
+		if out.maxHeld > 81 {
+			rec.Class("more-than-81-writers-held")
+		}
+		if out.maxHeld >= 81 {
+			rec.Class("81-writers-held")
+		}
+		rec.Count("max-writers-held", out.maxHeld)
 		if sig != "" {
 			rec.Failf(rt, sig, "%s", msg)
 		}
